@@ -158,15 +158,20 @@ fn main() {
                 mns.push(m);
             }
             let name = format!("E{count}");
-            let fields: Vec<u8> = (0..mns.len()).map(|_| rng.below(4) as u8).collect(); // 0,1 unit; 2 u8; 3 i32
-            writeln!(out, "#[derive(Copy, Clone, PartialEq, Debug, scpi_derive::ScpiEnum)]\npub enum {name} {{").unwrap();
+            // every fourth enum is field-less with explicit discriminants that are neither 0..N-1 nor in
+            // declaration order (an enum that doubles as a register code)
+            let explicit = count % 4 == 3;
+            let fields: Vec<u8> = (0..mns.len()).map(|_| if explicit { rng.below(2) as u8 } else { rng.below(4) as u8 }).collect(); // 0,1 unit; 2 u8; 3 i32
+            let repr = if explicit { "#[repr(u8)]\n" } else { "" };
+            writeln!(out, "{repr}#[derive(Copy, Clone, PartialEq, Debug, scpi_derive::ScpiEnum)]\npub enum {name} {{").unwrap();
             for (i, m) in mns.iter().enumerate() {
                 let f = match fields[i] {
                     2 => "(u8)",
                     3 => "(i32)",
                     _ => "",
                 };
-                writeln!(out, "    #[scpi(mnemonic = b\"{m}\")]\n    V{i}{f},").unwrap();
+                let disc = if explicit { format!(" = {}", 200 - 3 * i) } else { String::new() };
+                writeln!(out, "    #[scpi(mnemonic = b\"{m}\")]\n    V{i}{f}{disc},").unwrap();
             }
             writeln!(out, "}}").unwrap();
             // helpers
